@@ -12,9 +12,11 @@ expressions `SymbolicDim` builds (`src/onnx_ir/_core.py` 1484-1647: operator ove
   `_print_Mul` evaluated branch (312-376), `_print_Pow` (608-665), `_print_Rational` (712-718),
   `_print_Integer` (677-680), `_print_Function` (161-162), `_print_LatticeOp` (223-225),
   `parenthesize` (35-39) with `printing/precedence.py`, as the token list of the text.
-  Not transcribed: `sqrt` spellings of the exponents 1/2 and -1/2 (printed `b**(1/2)` here; `swf`
-  is false for them); the `pow_paren` index search `b.index(item.base)` is replaced by wrapping
-  the item itself (different only when the same base occurs twice among the denominators).
+  The `sqrt` spellings of the exponents 1/2 and -1/2 (`sqrt(b)`, `1/sqrt(b)`, `M/sqrt(b)`,
+  str.py 610-616 and `apow` in `_print_Mul`) and non-integer Rational exponents (`N**(1/3)`,
+  `M/N**(2/3)`) are transcribed (wave 4).  Not transcribed: the `pow_paren` index search
+  `b.index(item.base)` is replaced by wrapping the item itself (different only when the same
+  base occurs twice among the denominators).
 * `surf`: the tree the repository's parser returns on that text (proved in
   `Lemmas/SymExprSympy.lean`).
 * `swf`: the canonical-form facts about SymPy trees the equivalence theorem needs.
@@ -89,13 +91,27 @@ def fnExpr (f : SFn) (args : List Expr) : Expr :=
   | .min, args => foldBin .min (.inf false) args
   | _, _ => .inf true
 
+/-- the exponent `S.Half` (`Pow(b, 1/2)` is `sqrt(b)`) -/
+def isHalf : SExpr → Bool
+  | .rat p q => p == 1 && q == 2
+  | _ => false
+
+/-- the exponent `-S.Half` -/
+def isNegHalf : SExpr → Bool
+  | .rat p q => p == -1 && q == 2
+  | _ => false
+
 def sdenAlg : Alg Expr where
   int z := .num z
   rat p q := .bin .div (.num p) (.num q)
   sym s := .sym s
   add ts := foldBin .add (.num 0) (ts.map (·.2))
   mul fs := foldBin .mul (.num 1) (fs.map (·.2))
-  pow _ b _ e := .bin .pow b e
+  -- `Pow(b, 1/2)` is what `sympy.sqrt(b)` returns: the model's `sqrt`; `Pow(b, -1/2)` is `1/sqrt(b)`
+  pow _ b x e :=
+    if isHalf x then .un .sqrt b
+    else if isNegHalf x then .bin .div (.num 1) (.un .sqrt b)
+    else .bin .pow b e
   fn f args := fnExpr f (args.map (·.2))
 
 /-- the mathematical meaning of the SymPy tree -/
@@ -227,13 +243,18 @@ def tokAlg : Alg TK where
       den := fun _ => [] }
   pow b tb e te :=
     { toks :=
-        if isNegOne e then .num 1 :: .op .slash :: par 60 (precS b) tb.toks
+        -- str.py 610-616: `sqrt(b)`, `1/sqrt(b)`; 617-621: `1/b`
+        if isHalf e then call "sqrt" tb.toks
+        else if isNegHalf e then .num 1 :: .op .slash :: call "sqrt" tb.toks
+        else if isNegOne e then .num 1 :: .op .slash :: par 60 (precS b) tb.toks
         else par 60 (precS b) tb.toks ++ .op .dstar :: par 60 (precS e) te.toks,
       neg := [],
       den := fun lv =>
         if isNegOne e then
           let d := par lv (precS b) tb.toks
           if isMulOrPow b then paren d else d
+        -- `apow` builds `Pow(b, 1/2, evaluate=False)`, printed `sqrt(b)` (precedence 60: no parentheses)
+        else if isNegHalf e then call "sqrt" tb.toks
         else par 60 (precS b) tb.toks ++ .op .dstar :: par 60 (precNeg e) te.neg }
   fn f args := { toks := call f.name (intercal .comma (args.map (·.2.toks))), neg := [], den := fun _ => [] }
 
@@ -314,9 +335,15 @@ def surfAlg : Alg SF where
         | _ => mulBodyE false fs,
       den := .num 0 }
   pow _ tb e te :=
-    { e := if isNegOne e then .bin .div (.num 1) tb.e else .bin .pow tb.e te.e,
+    { e :=
+        if isHalf e then .un .sqrt tb.e
+        else if isNegHalf e then .bin .div (.num 1) (.un .sqrt tb.e)
+        else if isNegOne e then .bin .div (.num 1) tb.e else .bin .pow tb.e te.e,
       neg := .num 0,
-      den := if isNegOne e then tb.e else .bin .pow tb.e te.neg }
+      den :=
+        if isNegOne e then tb.e
+        else if isNegHalf e then .un .sqrt tb.e
+        else .bin .pow tb.e te.neg }
   fn f args := { e := fnExpr f (args.map (·.2.e)), neg := .num 0, den := .num 0 }
 
 /-- the exact tree `parseTokens (ppSympy s)` returns (for well-formed `s`) -/
@@ -344,11 +371,17 @@ def arityOk (f : SFn) (n : Nat) : Bool :=
   | .mod => n == 2
   | .max | .min => 1 ≤ n
 
-/-- a factor of a product that goes to the denominator has a literal (integer) exponent:
+/-- a literal exponent (an Integer or a non-integer Rational) -/
+def litExp : SExpr → Bool
+  | .int _ => true
+  | .rat _ _ => true
+  | _ => false
+
+/-- a factor of a product that goes to the denominator has a literal exponent:
     `M * K**(-N)` prints as `M/K**N`, and the two differ under strict evaluation at `K = 0`
-    when `-N` is positive -/
+    when `-N` is positive (see `SWfX` / `denNZ` below for the symbolic exponents) -/
 def denOk : SExpr → Bool
-  | .pow _ e => !negCoeff e || (match e with | .int _ => true | _ => false)
+  | .pow _ e => !negCoeff e || litExp e
   | _ => true
 
 def swfAlg : Alg Bool where
@@ -362,9 +395,8 @@ def swfAlg : Alg Bool where
     (match fs with
      | [] => false
      | _ :: rest => rest.all (fun g => !isNum g.1))
-  -- the exponent is not a non-integer Rational (SymPy prints `sqrt` for 1/2, not modelled)
-  -- nor is `1 / (p/q)` left unevaluated
-  pow b wb e we := wb && we && !isRat e && !(isNegOne e && isRat b)
+  -- `1 / (p/q)` is not left unevaluated
+  pow b wb e we := wb && we && !(isNegOne e && isRat b)
   fn f args := args.all (·.2) && arityOk f args.length
 
 def swf (s : SExpr) : Bool := para swfAlg s
@@ -372,5 +404,49 @@ def swf (s : SExpr) : Bool := para swfAlg s
 def SWf (s : SExpr) : Prop := swf s = true
 
 instance (s : SExpr) : Decidable (SWf s) := inferInstanceAs (Decidable (swf s = true))
+
+/-! ## Symbolic negative exponents in a denominator (`M * K**(-N)` printed `M/K**N`)
+
+`swfX` is `swf` without the literal-exponent condition `denOk`: the parser reads these texts too
+(same theorem for the parse half).  The value is preserved exactly when no such denominator's base
+is zero under the binding (`denNZ env`; `0**(positive)` is `0` but `1/0**(negative)` has no value):
+for SymPy's own symbols (positive integers) a base is a symbol, a product or a power of them and
+never zero; a base like `N - M` can be. -/
+
+def swfXAlg : Alg Bool where
+  int _ := true
+  rat _ _ := true
+  sym _ := true
+  add ts := !ts.isEmpty && ts.all (·.2)
+  mul fs := fs.all (fun g => g.2 && !isMulS g.1) &&
+    (match fs with
+     | [] => false
+     | _ :: rest => rest.all (fun g => !isNum g.1))
+  pow b wb e we := wb && we && !(isNegOne e && isRat b)
+  fn f args := args.all (·.2) && arityOk f args.length
+
+def swfX (s : SExpr) : Bool := para swfXAlg s
+
+def SWfX (s : SExpr) : Prop := swfX s = true
+
+instance (s : SExpr) : Decidable (SWfX s) := inferInstanceAs (Decidable (swfX s = true))
+
+/-- one factor of a product: a denominator entry with a symbolic exponent has a base whose value
+    is not zero (or has no value) under `env` -/
+def denNZf (env : Env) : SExpr → Bool
+  | .pow b e => !negCoeff e || litExp e || (eval env (sden b) != some 0)
+  | _ => true
+
+def denNZAlg (env : Env) : Alg Bool where
+  int _ := true
+  rat _ _ := true
+  sym _ := true
+  add ts := ts.all (·.2)
+  mul fs := fs.all (fun g => g.2 && denNZf env g.1)
+  pow _ wb _ we := wb && we
+  fn _ args := args.all (·.2)
+
+/-- the binding makes no denominator with a symbolic exponent vanish -/
+def denNZ (env : Env) (s : SExpr) : Bool := para (denNZAlg env) s
 
 end IrVerif.SymExpr
